@@ -69,12 +69,14 @@ Definition atf_ok_at (o : popts) (ls : list pline) (i k : nat) (x : pline) : boo
   let ps' := tree_parents o ls' in
   let li := linfo_of (o_delims o) (ptext (nth i ls (PL [] None))) in
   let lx := linfo_of (o_delims o) (ptext x) in
-  (* the clause "inside that family, no parent changed" is about configuration-line targets and payloads
-     indented deeper than the target; otherwise only "exactly one line is added" (done by the caller) *)
-  if negb (cfg li && (ind li <? ind lx)) then true else
-  (i <? k) && (k <=? S (family_endpoint ps i)) &&
-  forallb (fun j => opt_eqb Nat.eqb (parent_of ps' (shift_idx k j)) (option_map (shift_idx k) (parent_of ps j)))
-          (seq 0 (length ls)).
+  (* "without changing the parent of any existing line" holds for EVERY payload (also a sibling-level one);
+     "inside that family" is about configuration-line targets and payloads indented deeper than the target *)
+  let kept := forallb (fun j => opt_eqb Nat.eqb (parent_of ps' (shift_idx k j)) (option_map (shift_idx k) (parent_of ps j)))
+                      (seq 0 (length ls)) in
+  (* a blank or comment line heads no family: for such a target only "exactly one line is added" (done by the caller) *)
+  if negb (cfg li) then true else
+  if negb (ind li <? ind lx) then kept else
+  (i <? k) && (k <=? S (family_endpoint ps i)) && kept.
 
 (* The observation is the TEXT after the call.  When the new line equals its neighbours several insertion indices give the
    same text; the contract holds if it holds for one of the indices that explain the observed text. *)
@@ -89,6 +91,10 @@ Definition atf_ok (o : popts) (ls : list pline) (i k : nat) (x : pline) : bool :
    line itself.  None: not the child case (sibling placement / NotImplementedError), not modelled. *)
 Definition atf_child_index (ps : list (option nat)) (i self_ind new_ind : nat) : option nat :=
   if new_ind =? S self_ind then Some (S (family_endpoint ps i)) else None.
+
+(* the index the code picks for a SIBLING-level payload (same indent as the target) when the target has children:
+   linenum + len(children) -- it lies inside the target's own family (finding F43, see atf_sibling_index_refuted) *)
+Definition atf_sibling_index_children (ps : list (option nat)) (i : nat) : nat := i + length (kids ps i).
 
 (* text effect of one operation on a COMMITTED state (line numbers = indices, links = fresh parse) *)
 Definition text_effect (o : popts) (ls : list pline) (p : op) : result (list pline) :=
